@@ -1,10 +1,8 @@
 #!/bin/bash
-# tools/seedrun.sh <patch.diff> <PID> [tier]: apply a seeded change to /repo, run the check, undo.
-P="$1"; PID="$2"; TIER="${3:-quick}"
-cd /repo || exit 9
-git diff --quiet || { echo "repo dirty"; exit 9; }
-git apply "$P" || { echo "apply failed"; exit 9; }
+# tools/seedrun.sh <patch.diff> <PID> [tier]: apply a seeded change in a private scratch worktree and run the check on it.
+P="$1"; PID="$2"; TIER="${3:-quick}"; WT="/tmp/seedrun_wt_$$"
+git -C /repo worktree add -q --detach "$WT" HEAD || exit 9
+git -C "$WT" apply "$P" || { echo "apply failed"; git -C /repo worktree remove --force "$WT"; exit 9; }
 cd /verif
-bin/check "$PID" --tier "$TIER" 2>&1 | grep -E "VIOLATION|violation in|KNOWN|INCONCLUSIVE|HARNESS|exit=" | cut -c1-300 | head -12
-git -C /repo checkout -- .
-git -C /repo status --short | head -3
+VERIF_REPO="$WT" bin/check "$PID" --tier "$TIER" 2>&1 | grep -E "VIOLATION|violation in|KNOWN|INCONCLUSIVE|HARNESS|exit=" | cut -c1-300 | head -12
+git -C /repo worktree remove --force "$WT"
